@@ -22,10 +22,12 @@ var builtin_cache = starlark.NewBuiltin("Cache", func(thread *starlark.Thread, f
 })
 
 func (c *cache) get(key string) (starlark.Value, bool) {
+	verifPoint("cache.rlock", key)
 	c.m.RLock()
 	defer c.m.RUnlock()
 
 	v, ok := c.entries[key]
+	verifPoint("cache.read", ok)
 	return v, ok
 }
 
@@ -44,18 +46,25 @@ func (c *cache) once(thread *starlark.Thread, fn *starlark.Builtin, key string, 
 		return v, nil
 	}
 
+	verifPoint("cache.lock", key)
 	c.m.Lock()
 	defer c.m.Unlock()
+	defer verifPoint("cache.unlock", key)
+	verifPoint("cache.locked", key)
 
 	if v, ok := c.entries[key]; ok {
+		verifPoint("cache.recheck", true)
 		return v, nil
 	}
+	verifPoint("cache.recheck", false)
 
 	v, err := starlark.Call(thread, function, nil, nil)
 	if err != nil {
+		verifPoint("cache.fail", key)
 		return nil, err
 	}
 	c.entries[key] = v
+	verifPoint("cache.store", key)
 
 	return v, nil
 }
